@@ -777,7 +777,7 @@ def replay(rec):
     case = c["case"]
     want = c["signature"]
     death = want.startswith(("stage-thread-died", "race:stage-thread-died"))
-    print("line:", repr(H.render(case)), "fault:", case.get("fault"))
+    print("line:", repr(H.render(case)), "fault:", case.get("fault"), *(["controlling terminal: yes, flag:", case.get("flag")] if case.get("tty") else []))
     attempts = 12 if want.startswith("race:") else 3 if death else 1
     for n in range(attempts):
         r = _run(case)
